@@ -566,6 +566,28 @@ theorem gen_complete_registry_spec_partial (hesc : EscapeHtmlIs F) (msgs : Bool)
       exact calls_table_throw F reg table fuel hesc msgs hplain htab d data name ⟨data, ij, globals⟩ jd jij hj hij hgl hx t text hlk ht
   | unspec => exact Or.inr rfl
 
+/-- STATEMENT LEVEL, the converse with directives (relative to `PrintGe`): a list of commands met inside a template
+    of the registry.  Where Spec/Eval.renderCmds (library semantics `dsem`, calls rendered by Spec/Eval.renderTmpl to depth
+    `d`) renders the commands to `t`, running the generated statements — calls served by the table of the generated
+    functions — COMPLETES with the buffer holding its old content followed by exactly `t`, or leaves the common subset
+    (`unspec`); it never throws. -/
+theorem gen_complete_registry_cmds_dirs_partial (hesc : EscapeHtmlIs F) (ok : List Directive → Bool) (dsem : Option Spec.Eval.LibSem)
+    (hge : PrintGe F ok dsem) (hasBundle : Bool)
+    (hplain : ∀ t ∈ reg, dirBlock ok hasBundle t.body = true) (htab : TableOk reg table) (d : Nat) (ae : Autoescape) (buf : Bytes)
+    (entry : Spec.Eval.Binds) (cmds : CmdList) (hpl : dirCmds ok hasBundle cmds = true) (sc : Scope) (r : JsStmts × Scope)
+    (h : toCmds ae buf cmds sc = some r) (env : SEnv) (jenv : JEnv) (out : Bytes) (hs : ScOk sc) (hg : GoodBuf sc buf)
+    (hrel : EnvRel entry sc env jenv) (hb : BufIs buf jenv out) (t : Bytes)
+    (ht : Spec.Eval.renderCmds reg hasBundle (ae != .off) entry (Spec.Eval.renderTmpl reg hasBundle dsem d) dsem cmds env = .val t)
+    (fuel' : Nat) :
+    (∃ jenv', execStmts F (callFn F table fuel d) fuel' r.1 jenv = .ok jenv' ∧ BufIs buf jenv' (out ++ t)) ∨
+      execStmts F (callFn F table fuel d) fuel' r.1 jenv = .unspec := by
+  have href : refCmds F ⟨reg, entry, refCall F reg d⟩ ae cmds env = .val t :=
+    spec_le_ref_cmds F ae hesc reg hasBundle entry (refCall F reg d) (Spec.Eval.renderTmpl reg hasBundle dsem d) ok dsem (hge ae)
+      (fun name t ce out hl h => renderTmpl_le_dirs F reg hesc ok dsem hge hasBundle hplain d name t ce out hl h) cmds env t hpl ht
+  exact gen_complete_cmds_partial F (callFn F table fuel d) ⟨reg, entry, refCall F reg d⟩ ae buf
+    (calls_table_correct F reg table fuel htab d entry).1 (calls_table_correct F reg table fuel htab d entry).2
+    cmds sc r h env jenv out hs hg hrel hb t href fuel'
+
 end
 
 /-! ### `TableOk` for the functions of a file -/
